@@ -17,7 +17,7 @@ RULE = ("rotations generated from angle triples (full range, exact singular valu
         "SO(3) and SE(3) inputs, base functions and SO3/SE3/UnitQuaternion methods, planar x-y-theta. Oracle: constructor = "
         "documented product of reference axis rotations (1e-9); rebuild(extract(R)) = R (1e-6); angle ranges; deg = rad*180/pi. "
         "Non-trivial: within 1e-3 of a singular configuration, or non-default order / flip / deg.")
-RULE = RULE + probes.RULE_TEXT + (probes.AUG_TEXT if PROPERTY_ID in probes.AUG_PROPS else "") + probes.VARIANT_TEXT + probes.OWN_TEXT
+RULE = RULE + probes.RULE_TEXT + (probes.AUG_TEXT if PROPERTY_ID in probes.AUG_PROPS else "") + probes.VARIANT_TEXT + probes.OWN_TEXT + probes.EXTRA_RULES.get(PROPERTY_ID, "")
 ASSUMPTIONS = ["extraction need not return the generating angles (many pre-images): only the rebuilt matrix and ranges are judged",
                "reference rotations from pbt/refs.py; deg inputs are a*180/pi so that the library's conversion reproduces a to 1 ulp"]
 
